@@ -16,11 +16,13 @@ class PlanJoinTSPredictorQuery:
     def __init__(self, planner):
         self.planner = planner
 
-    def adapt_dbt_query(self, query, integration):
+    def adapt_dbt_query(self, query, integration, join_left=None):
         orig_query = query
 
         join = query.from_table
-        join_left = join.left
+        if join_left is None:
+            # the data side of the join (the caller passes it when the predictor is written first)
+            join_left = join.left
 
         # dbt query.
 
@@ -131,7 +133,7 @@ class PlanJoinTSPredictorQuery:
         orig_query = query
         # dbt query?
         if isinstance(join_left, Select) and isinstance(join_left.from_table, Identifier):
-            query, join_left = self.adapt_dbt_query(query, integration)
+            query, join_left = self.adapt_dbt_query(query, integration, join_left)
 
         predictor_namespace, predictor = self.planner.get_predictor_namespace_and_name_from_identifier(join_right)
         table = join_left
